@@ -1140,7 +1140,9 @@ func (m *MapPollard) ingest(delHashes []Hash, proof Proof) error {
 
 	// Calculate and ingest the proof.
 	proofPos, _ := ProofPositions(hnp.positions, m.NumLeaves, m.TotalRows)
-	if TreeRows(m.NumLeaves) != m.TotalRows && len(proofPos) != len(proof.Proof) {
+	// Only trim when there are more positions than proof hashes. A proof with
+	// extra unused hashes at the end has all the positions it needs.
+	if TreeRows(m.NumLeaves) != m.TotalRows && len(proofPos) > len(proof.Proof) {
 		proofPos = m.trimProofPos(proofPos, m.NumLeaves)
 	}
 	for i, pos := range proofPos {
